@@ -46,7 +46,7 @@ def main():
     a = parse_args()
     quick = a.tier == 'quick'
     run = Run('C01', a.tier, a.seed, assumptions=[
-        'I9: canonicity is claimed for the 34 single-character signifiers that combine with no neighbour (rule-derived from the grammar)',
+        'I9: canonicity is claimed for the 34 single-character signifiers that combine with no neighbour (rule-derived from the grammar) and, in a population of its own, seven signifiers of more than one character whose runs do not merge',
         'the eight accidental-display characters are signifiers only on notes without accidental (property text)',
         'the extended round trip uses get_kern_from_ekern to remove the separators'])
     run.rule = ('(a) every token of the writer automaton (MaxSig=%d) inside documents of 40 notes; (b) seeded random documents with two '
@@ -72,7 +72,8 @@ def main():
         # invisible barlines ('=1-', '=-||'): what is printed for them is C03's business (finding D18); that the normal form is a fixed
         # point and canonical is claimed for these documents like for any other
         pops = [('main', 220 if quick else 5000, {}), ('explore_chords', 40 if quick else 300, {'profile': 'explore_chords'}),
-                ('invisible_barlines', 60 if quick else 800, {'profile': 'hidden'})]
+                ('invisible_barlines', 60 if quick else 800, {'profile': 'hidden'}),
+                ('multi_character_signifiers', 60 if quick else 800, {'profile': 'multi_sigs'})]
         for k, (label, n, kw) in enumerate(pops):
             fixed = label == 'explore_chords'          # a fixed corpus: its failing cases are listed one by one in known_findings.json
             part = docs.build_sessions(dp.sess_c01, [(777000000 + i) if fixed else (a.seed * 1000003 + k * 100000007 + i) for i in range(n)], **kw)
